@@ -376,6 +376,32 @@ def run(pid, tier, seed, do_replay=None):
         n_viol += 1
         tail = "" if r1.get("native", True) else " no-failing-input-found"
         lines.append("VIOLATION property=%s replay=%s obligation=%s%s" % (pid, path, r1.get("what"), tail))
+    # violations still without a failing input of their own: the property-level oracle is the replay of last resort
+    oracle_runs = {}
+    if plan.oracles and any(ln.startswith("VIOLATION") and ln.endswith("no-failing-input-found") for ln in lines):
+        for script in plan.oracles:
+            path, reproduced, out = replay.run_oracle(pid, script, [])
+            oracle_runs[script] = (path, reproduced)
+            if reproduced:
+                new_lines = []
+                for ln in lines:
+                    if ln.startswith("VIOLATION") and ln.endswith("no-failing-input-found"):
+                        ob_name = ln.split(" obligation=", 1)[1].rsplit(" no-failing-input-found", 1)[0]
+                        ln = "VIOLATION property=%s replay=%s obligation=%s" % (pid, path, ob_name)
+                    new_lines.append(ln)
+                lines = new_lines
+                break
+    # thorough tier: the oracles are also run unconditionally, as a cross-check of the contracts themselves.  A failing
+    # input found there while every obligation holds is a genuine violation of the property on the real code that no
+    # contract covers; it is reported as such (the only decision that does not come from an obligation; thorough only)
+    if tier == "thorough" and plan.oracles and n_viol == 0:
+        for script in plan.oracles:
+            path, reproduced = oracle_runs.get(script) or replay.run_oracle(pid, script, [])[:2]
+            thorough_note = {"what": "native-cross-check:" + script, "passed": not reproduced}
+            ctx.oracle_cross_checks = getattr(ctx, "oracle_cross_checks", []) + [thorough_note]
+            if reproduced:
+                n_viol += 1
+                lines.append("VIOLATION property=%s replay=%s obligation=native-cross-check:%s" % (pid, path, script))
     printed = set()
     for obj, f in status["known"]:
         key = f.get("id", f.get("what"))
